@@ -288,20 +288,13 @@ def run(ctx, rep):
         raise CheckerError('cannot read the heap threshold from is_heap_allocated: %s' % show(iha))
     H1 = {n for n, d in tyvars if d >= T}
     H2 = set(heap_ctor_types)
-    # Object::free: which variants reach a destroy function
+    # Object::free: which variants are released (a destroy function, or a dealloc of that box type), and as which box type
+    from rules.unsafe_inv import released_types
     fn_free = F.fn('object::Object::free')
     H3 = set()
-    for p in AbsInt(F, fn_free).run():
-        from rules.unsafe_inv import tag_facts
-        var = sorted({ty for o_, ty in tag_facts(p)})     # `match self.tag()` arms and `tag == Type::X` tests alike
-        calls = [c[1] for c in p.calls if c[1].endswith('::destroy')]
-        if calls and var:
-            for v in var:
-                if v and not v.startswith('otherwise'):
-                    H3.add(v)
-                    want = 'object::%s::destroy' % v
-                    rep.ob(calls == [want], 'R15.4', 'object::Object::free', 'destroy fn for ' + v,
-                           'Type::%s is destroyed by %s' % (v, calls), fn_free.loc())
+    for ty, rel in sorted(released_types(ctx).items()):
+        H3.add(ty)
+        rep.ob(set(rel) == {ty}, 'R15.4', 'object::Object::free', 'destroy fn for ' + ty, 'Type::%s is released as box type %s' % (ty, sorted(set(rel))), fn_free.loc())
     rep.table('heap_partition', {'is_heap_allocated': sorted(H1), 'allocating_constructors': sorted(H2), 'freed_by_free': sorted(H3),
                                  'immediate_constructors': sorted(imm_ctor_types)})
     rep.ob(H1 == H2, 'R15.4', 'object::Object::is_heap_allocated', 'threshold = allocating constructors',
